@@ -335,13 +335,16 @@ func ruleCookieFlightNeverResent(c *Ctx, r *Report) {
 						continue
 					}
 					a := cc.Call.Args[idx]
-					if _, isK := a.(*ssa.Const); isK {
-						continue
+					// directly, or handed down through a parameter of the calling helper
+					if !c.allResolved(a, func(x ssa.Value) bool {
+						if _, isK := x.(*ssa.Const); isK {
+							return true
+						}
+						_, f, _, ok := fieldLoad(x)
+						return ok && f == "IsRetransmit"
+					}) {
+						all = false
 					}
-					if _, f, _, ok := fieldLoad(a); ok && f == "IsRetransmit" {
-						continue
-					}
-					all = false
 				}
 				if all {
 					peerFlag[p] = true
